@@ -14,6 +14,7 @@ import (
 	"sync"
 	"time"
 
+	"github.com/ansible/receptor/pkg/verifhook"
 	"github.com/fsnotify/fsnotify"
 	"github.com/rogpeppe/go-internal/lockedfile"
 )
@@ -187,15 +188,30 @@ func (sfd *StatusFileData) lockStatusFile(filename string) (*lockedfile.File, er
 	if err != nil {
 		return nil, err
 	}
+	verifhook.Emit("sf", "sf_lock", "file", filename)
 
 	return lockFile, nil
 }
 
 // unlockStatusFile releases the lock on the status file.
 func (sfd *StatusFileData) unlockStatusFile(filename string, lockFile *lockedfile.File) {
+	verifhook.Emit("sf", "sf_unlock", "file", filename)
 	if err := lockFile.Close(); err != nil {
 		MainInstance.nc.GetLogger().Error("Error closing %s.lock: %s", filename, err)
 	}
+}
+
+// verifRec renders the record for trace events (only evaluated with the verif build tag).
+func (sfd *StatusFileData) verifRec() string {
+	if !verifhook.On {
+		return ""
+	}
+	b, err := json.Marshal(sfd)
+	if err != nil {
+		return "!" + err.Error()
+	}
+
+	return string(b)
 }
 
 // saveToFile saves status to an already-open file.
@@ -221,7 +237,13 @@ func (sfd *StatusFileData) Save(filename string) error {
 	if err != nil {
 		return err
 	}
+	verifhook.Emit("sf", "sf_save_trunc", "file", filename)
+	verifhook.CrashPoint("save_after_trunc")
 	err = sfd.saveToFile(file)
+	if err == nil {
+		verifhook.Emit("sf", "sf_save_write", "file", filename, "state", sfd.State, "size", sfd.StdoutSize, "type", sfd.WorkType, "rec", sfd.verifRec())
+		verifhook.CrashPoint("save_after_write")
+	}
 	if err != nil {
 		serr := file.Close()
 
@@ -262,10 +284,16 @@ func (sfd *StatusFileData) Load(filename string) error {
 	defer sfd.unlockStatusFile(filename, lockFile)
 	file, err := os.Open(filename)
 	if err != nil {
+		verifhook.Emit("sf", "sf_load", "file", filename, "ok", false, "err", err.Error())
+
 		return err
 	}
 	err = sfd.loadFromFile(file)
+	if err == nil {
+		verifhook.Emit("sf", "sf_load", "file", filename, "ok", true, "state", sfd.State, "size", sfd.StdoutSize, "type", sfd.WorkType, "rec", sfd.verifRec())
+	}
 	if err != nil {
+		verifhook.Emit("sf", "sf_load", "file", filename, "ok", false, "err", err.Error())
 		lerr := file.Close()
 		if lerr != nil {
 			MainInstance.nc.GetLogger().Error("Error closing %s: %s", filename, lerr)
@@ -293,6 +321,7 @@ func (sfd *StatusFileData) UpdateFullStatus(filename string, statusFunc func(*St
 		return err
 	}
 	defer sfd.unlockStatusFile(filename, lockFile)
+	verifhook.CrashPoint("ufs_after_lock")
 	file, err := os.OpenFile(filename, os.O_CREATE|os.O_RDWR, 0o600)
 	if err != nil {
 		return err
@@ -314,10 +343,17 @@ func (sfd *StatusFileData) UpdateFullStatus(filename string, statusFunc func(*St
 	if size > 0 {
 		err = sfd.loadFromFile(file)
 		if err != nil {
+			verifhook.Emit("sf", "sf_read", "file", filename, "ok", false, "fsize", size, "err", err.Error())
+
 			return err
 		}
 	}
+	verifhook.Emit("sf", "sf_read", "file", filename, "ok", true, "fsize", size, "state", sfd.State, "size", sfd.StdoutSize, "type", sfd.WorkType, "rec", sfd.verifRec())
+	verifhook.CrashPoint("ufs_after_read")
+	verifOldState, verifOldSize, verifOldDetail := sfd.State, sfd.StdoutSize, sfd.Detail
 	statusFunc(sfd)
+	verifhook.Emit("sf", "sf_apply", "file", filename, "fsize", size, "old_state", verifOldState, "old_size", verifOldSize, "old_detail", verifOldDetail,
+		"new_state", sfd.State, "new_size", sfd.StdoutSize, "new_detail", sfd.Detail, "type", sfd.WorkType)
 	_, err = file.Seek(0, 0)
 	if err != nil {
 		return err
@@ -326,10 +362,14 @@ func (sfd *StatusFileData) UpdateFullStatus(filename string, statusFunc func(*St
 	if err != nil {
 		return err
 	}
+	verifhook.Emit("sf", "sf_trunc", "file", filename)
+	verifhook.CrashPoint("ufs_after_trunc")
 	err = sfd.saveToFile(file)
 	if err != nil {
 		return err
 	}
+	verifhook.Emit("sf", "sf_write", "file", filename, "state", sfd.State, "size", sfd.StdoutSize, "type", sfd.WorkType, "rec", sfd.verifRec())
+	verifhook.CrashPoint("ufs_after_write")
 
 	return nil
 }
@@ -472,6 +512,10 @@ func (bwu *BaseWorkUnit) Release(force bool) error {
 	attemptsLeft := 3
 	for {
 		err := bwu.fs.RemoveAll(bwu.UnitDir())
+		if verifhook.On {
+			verifhook.Emit(bwu.w.nc.NodeID(), "wu_release_rm", "id", bwu.unitID, "force", force, "ok", err == nil)
+		}
+		verifhook.CrashPoint("release_after_rmdir")
 		if force {
 			break
 		} else if err != nil {
@@ -493,6 +537,9 @@ func (bwu *BaseWorkUnit) Release(force bool) error {
 	bwu.w.activeUnitsLock.Lock()
 	defer bwu.w.activeUnitsLock.Unlock()
 	delete(bwu.w.activeUnits, bwu.unitID)
+	if verifhook.On {
+		verifhook.Emit(bwu.w.nc.NodeID(), "wu_release_done", "id", bwu.unitID, "force", force)
+	}
 
 	return nil
 }
